@@ -10,9 +10,19 @@
    (BufMem.v: arrays with a capacity, checked slice expressions and indexed writes, grow /
    tryGrowByReslice / makeSlice as in the code) NO call sequence, with any payloads, runes, bytes
    and any capacity decisions of the runtime, evaluates a slice expression out of range.
-   NOT a theorem: the exact shape of the PANIC= report (correspondence + black-box predicates). *)
+   SCRATCH ARRAY OF fmtInteger (C11_integer_scratch_array_never_out_of_range): FmtMem.v models
+   format.go's fmtInteger at the level of its scratch array (f.intbuf, 68 bytes, or a fresh array
+   of 3 + wid + prec bytes): every "i--; buf[i] = c" is a checked write, the loops are the Go
+   loops.  For EVERY 64-bit operand, base, sign, verb (O only with base 8, as fmtInteger
+   dispatches it), flag subset, width and precision no index leaves the array, and the bytes
+   handed to pad are exactly those of the list-level fmt_integer that the printer model (and the
+   correspondence check) uses.  The octal case needs an argument: "%#.NO" has room only because
+   the zero padding supplies the leading 0 that '#' would otherwise add.
+   NOT a theorem: the exact shape of the PANIC= report (correspondence + black-box predicates);
+   the scratch arrays of fmtUnicode / fmtC / fmtQc / fmtFloat (list-level in the model). *)
 From Redact Require Import Bytes Tokens Utf8 Buffer Ops BufInv LBuf Printer Api.
-From Redact Require Import Utf8P BufInvP BufferThm Hoare Keeps BufMem BufMemP.
+From Redact Require Import Utf8P BufInvP BufferThm Hoare Keeps BufMem BufMemP Fmt FmtNI FmtMem FmtMemP.
+From Coq Require Import ZArith.
 Import List ListNotations.
 
 Theorem C11_every_rune_is_written_validly : forall r, valid_utf8 (encode_rune r) = true.
@@ -40,6 +50,25 @@ Theorem C11_no_slice_expression_out_of_range : forall ops h c, cinv h c ->
   exists h' c', crun h c ops = Some (h', c') /\ cabs h' c' = run_from (cabs h c) (map fst ops) /\ cinv h' c'.
 Proof. exact crun_refines. Qed.
 Print Assumptions C11_no_slice_expression_out_of_range.
+
+Theorem C11_integer_scratch_array_never_out_of_range : forall f u0 base sg verb up,
+  base_ok base -> (0 <= u0 < two64)%Z -> (verb = 79%Z -> base = 8%Z) -> (0 <= wid f)%Z -> (0 <= prec f)%Z ->
+  fmt_integer_mem f u0 base sg verb up = Some (fmt_integer f u0 base sg verb up).
+Proof. exact fmt_integer_mem_ok. Qed.
+Print Assumptions C11_integer_scratch_array_never_out_of_range.
+
+(* Non-vacuity: "%#+b" of MaxUint64 fills 67 of the 68 bytes; "%+#070.0b"-like settings enlarge the
+   array; and the error value is real: were 'O' ever paired with base 2 (it is not: fmtInteger
+   passes 8), "0b" + "0o" + sign + 64 digits would not fit and the model reports the overrun. *)
+Example C11_scratch_nonvacuous :
+  let fl0 := mkFlags false false false true true false false false false in
+  let f := mkF fl0 0 0 in
+  scratch_len f = 68%Z /\
+  fmt_integer_mem f (two64 - 1) 2 false 98 false = Some (fmt_integer f (two64 - 1) 2 false 98 false) /\
+  fmt_integer_mem f (two64 - 1) 2 false 79 false = None /\
+  (let g := mkF (mkFlags true true false true true false true false false) 80 75 in
+   scratch_len g = 158%Z /\ fmt_integer_mem g 5 8 true 79 false = Some (fmt_integer g 5 8 true 79 false)).
+Proof. vm_compute. repeat split; reflexivity. Qed.
 
 (* Non-vacuity: an invalid rune in an open envelope; a Stringer whose String panics while the
    operand is printed: the text before and after is intact and the payload is enveloped. *)
